@@ -347,3 +347,5 @@ def run(tier, seed):
     return col, {"exhaustive": col.counters.get("caps_hit", 0) == 0,
                  "states": len(col.sets.get("states", ())), "transitions": col.counters.get("transitions", 0),
                  "traces_validated_against_impl": col.evaluations}
+
+RULE += (' Beyond small: 9..129 tasks at the default schedule (9 and 17 also with pre-emptions), batches that are not recorded in problem.individuals, batches mixing individual classes, 33..257 (thorough 1025) tasks through real joblib.')
